@@ -9,6 +9,7 @@ cp -r "$src"/* "$dst"/ 2>/dev/null
 cd /repo || exit 2
 if ! git apply --check "$dst/patch.diff" 2>/tmp/seed-apply.err; then echo "$sid: patch does not apply to current HEAD: $(head -2 /tmp/seed-apply.err)"; exit 3; fi
 git apply "$dst/patch.diff"
+rm -rf /tmp/evidence-backup && cp -r /verif/evidence /tmp/evidence-backup
 for id in "$@"; do
   out=$(cd /verif && timeout 2400 ./check $id --tier quick 2>&1)
   rc=$?
@@ -16,4 +17,5 @@ for id in "$@"; do
 done
 git -C /repo checkout -- . 
 git -C /repo status --short | head -3
+cp /tmp/evidence-backup/*.json /verif/evidence/ 2>/dev/null
 (cd /verif && git status --short replays | awk '$1=="??"{print $2}' | xargs -r rm -rf)
